@@ -49,7 +49,7 @@ def run(chk):
                 "faces keyed by (neighbour, image) with area and centroid within tolerance, no non-negligible face missing or spurious; periodic build has no boundary faces; every shift component is exactly "
                 "-w, 0 or +w on active axes and 0 elsewhere, absent iff zero; op translate: random and wall-hitting translations (wrapped), every cell measure and per-neighbour face areas unchanged; "
                 "near-degenerate inputs that panic are C05's business and only counted; non-trivial = cell with >= 1 shifted face")
-    chk.lean(['MVoro.Props.C06', 'MVoro.Proofs.Periodic'], [], [])
+    chk.lean(['MVoro.Props.C06', 'MVoro.Proofs.Periodic'], ['MVoro.Obl.NN'], ['NN'])
     got = run_cells_op(chk, op='periodic3')
     if got is None:
         return
